@@ -29,7 +29,11 @@ for d in sorted(glob.glob("/tmp/mut/out_*/m*")):
         prev = json.load(open(os.path.join(out, "meta.json"))).get("checks_run", {})
     prev.update(checks)
     caught = sorted(k for k, v in prev.items() if v.get("exit") == 1 and v.get("violations", 0) > 0)
-    json.dump({
+    keep = {}
+    if os.path.exists(os.path.join(out, "meta.json")):
+        old_meta = json.load(open(os.path.join(out, "meta.json")))
+        keep = {k: v for k, v in old_meta.items() if k in ("missed_initially", "strengthening", "not_caught_reason", "note")}
+    json.dump({**keep,
         "property": meta.get("property", prop), "summary": meta.get("summary"), "needs": meta.get("needs"), "files": meta.get("files"),
         "baseline_passed_before": meta.get("baseline_passed_before"), "baseline_passed_after": meta.get("baseline_passed_after"),
         "confirmed": {"demo_on_unchanged_tree_exit": r["demo_clean"], "demo_with_patch_exit": r["demo_mutated"],
